@@ -37,3 +37,8 @@ def main(tier, seed):
                           assumptions=["the program judged is Polar's normalized program as exported by the harness "
                                        "(statement list with conditions/defaults); that it means the same as the source is C02",
                                        "pointwise identity is checked on the stores reachable within N iterations"])
+
+
+def replay(path):
+    from ..driver import replay_analysis
+    return replay_analysis("C03", path, want=["normalized", "recs"], builders=[C.b_normalized, C.b_recs], N=4)
